@@ -250,7 +250,11 @@ let dummy_inputs (o : ode) (ss : string list) : float inputs =
     in_params = List.map (fun _ -> 0.0) (param_names o);
     in_missing = List.map (fun _ -> 0.0) (missing_names o) }
 
-let fuel_for (o : ode) = nat_of_int (List.length o.o_inters + List.length o.o_derivs + 2)
+let fuel_for (o : ode) = nat_of_int (List.length o.o_inters + 2 * List.length o.o_derivs + 3)
+
+let mode_of = function "euler" -> MEuler | "guard" -> MGuard | "plain" -> MPlain | s -> bad ("mode " ^ s)
+let mode_name = function MEuler -> "euler" | MGuard -> "guard" | MPlain -> "plain"
+let q_of num den = { qnum = z_of_decimal num; qden = pos_of_z (z_of_decimal den) }
 
 let handle (req : sexp) : String.t =
   match req with
@@ -302,6 +306,41 @@ let handle (req : sexp) : String.t =
             let fb = first_bad o ss inp with_dt f.f_nret (reserved inp with_dt) b O in
             jobj [ "status", jstr "ok"; "valid", jbool (v && rf); "reserved_free", jbool rf;
                    "first_bad", jopt (fun n -> string_of_int (int_of_nat n)) fb ]))
+  | L [A "predict"; nonzero] ->
+      (* mode of every state under generalized Rush-Larsen, as the mirror predicts it; nonzero =
+         states for which fraction_numerator_is_nonzero holds (exported verdict) *)
+      let o = the_ode () in
+      (match sorted_states o with
+       | None -> jobj ["status", jstr "cycle"]
+       | Some ss ->
+         let nz = strs nonzero in
+         let is_nz s = List.exists (fun x -> os x = os s) nz in
+         jobj ["status", jstr "ok";
+               "modes", jlist (fun s -> jstr (mode_name (predict_mode o is_nz s))) ss;
+               "lin_zero", jlist (fun s ->
+                   match List.find_opt (fun a -> os a.a_name = os (deriv_name_of s)) o.o_derivs with
+                   | Some a -> jbool (is_zero_expr (d s a.a_expr))
+                   | None -> "null") ss])
+  | L [A "validate-scheme"; A dnum; A dden; modes; stiff; A nret; body] ->
+      let o = the_ode () in
+      (match sorted_states o with
+       | None -> jobj ["status", jstr "cycle"]
+       | Some ss ->
+         let ox = extend_lin o in
+         let inp = dummy_inputs o ss in
+         let ks = List.map kstmt_of (lst body) in
+         let st = strs stiff in
+         let is_stiff s = List.exists (fun x -> os x = os s) st in
+         let modes = List.map (fun m -> mode_of (atom m)) (lst modes) in
+         (match fill_body ox ks with
+          | None -> jobj ["status", jstr "ok"; "valid", jbool false; "reason", jstr "fill: a let names no assignment of the (extended) model or reads a name its definition does not mention"]
+          | Some b ->
+            let f = { f_name = cs "scheme"; f_args = []; f_nret = nat_of_int (int_of_string nret); f_body = b } in
+            let v = valid_scheme o ss inp modes is_stiff (q_of dnum dden) f && states_clean ox ss inp true in
+            let rf = reserved_free ox inp true in
+            let fb = first_bad ox ss inp true f.f_nret (reserved inp true) b O in
+            jobj [ "status", jstr "ok"; "valid", jbool (v && rf); "reserved_free", jbool rf;
+                   "first_bad", jopt (fun n -> string_of_int (int_of_nat n)) fb ]))
   | L [A "semeval"; A with_dt; inp; names] ->
       let o = the_ode () in
       (match sorted_states o with
@@ -309,7 +348,8 @@ let handle (req : sexp) : String.t =
        | Some ss ->
          let inp = inputs_of inp in
          let with_dt = (with_dt = "1") in
-         let vals = List.map (fun n -> sem_eval fops o ss inp with_dt (fuel_for o) (cs (atom n))) (lst names) in
+         let ox = extend_lin o in
+         let vals = List.map (fun n -> sem_eval fops ox ss inp with_dt (fuel_for o) (cs (atom n))) (lst names) in
          jobj ["status", jstr "ok"; "values", jlist (jopt jfloat) vals])
   | L [A "semexpr"; A with_dt; inp; es] ->
       let o = the_ode () in
@@ -318,7 +358,8 @@ let handle (req : sexp) : String.t =
        | Some ss ->
          let inp = inputs_of inp in
          let with_dt = (with_dt = "1") in
-         let vals = List.map (fun e -> sem_eval_expr fops o ss inp with_dt (fuel_for o) (expr_of e)) (lst es) in
+         let ox = extend_lin o in
+         let vals = List.map (fun e -> sem_eval_expr fops ox ss inp with_dt (fuel_for o) (expr_of e)) (lst es) in
          jobj ["status", jstr "ok"; "values", jlist (jopt jfloat) vals])
   | L [A "evalclosed"; es] ->
       let vals = List.map (fun e -> eval fops (fun _ -> nan) (expr_of e)) (lst es) in
